@@ -19,6 +19,13 @@ INITIAL_MISS = {'C01-1': 'provider function _increment_parent_descriptor_version
                 'C05-3': 'C05 trusted the converter lemma proved under C18 without re-checking it',
                 'C07-3': 'only the branch of _update_corresponding_state with the state inside the transaction was under contract; the copy branch was not',
                 'C08-4': 'on_renew_request was only checked for unknown identifiers, not for the content / order of the answer',
+                'C15-3': 'reported as undecided (exit 2): the refutation was replayed only with draws inside the legal window, so the model looked spurious',
+                'C15-4': 'the send loop (_run_send) was declared out of reach and had no contract',
+                'C16-3': 'the foreign-scope enumeration had malformed strings only, no well-formed scope with unknown / duplicated / empty query keys',
+                'C16-4': 'no check parsed the same scope twice with a modification in between (parse assumed stateless)',
+                'C17-3': 'reported as undecided (exit 2): next(iter(...)) was not modelled and the enabled codings were an abstract set without a list view',
+                'C17-4': 'the bounded client check injected the configuration into a stand-in object and so bypassed SoapClient.__init__',
+                'C20-4': 'no history queried the languages, added texts and queried again',
                 'C09-3': 'reported as undecided (exit 2): obligations were attached to the notification calls, so an iteration that never reaches the Fail report produced no obligation'}
 for d in sorted(x for x in os.listdir(ROOT) if not x.startswith("_")):
     p = os.path.join(ROOT, d)
